@@ -193,6 +193,17 @@ def run(ctx):
         for bi, (b, kinds) in enumerate(batches):
             nums = fmt_oracle.check_batch(b, lang, report, ctx.count, on_record=on_record)
             ctx.count(f'batch:{lang}:{len(b)}x{max(len(x) for x in b)}')
+            if len(b) == 1 and bi % 3 == 0:
+                # a single sentence may be passed as the bare n-best list: same records, all under number 1
+                for f in fmt_oracle.FORMATS:
+                    try:
+                        a1, a2 = to_string(b[0], format=f), to_string(b, format=f)
+                    except Exception:
+                        continue
+                    if a1 != a2:
+                        ctx.fail('flat_batch', f'[{f}/{lang}] to_string(n-best list of one sentence) differs from to_string([that list])',
+                                 {'format': f, 'lang': lang, 'batch': [[[fmt_oracle.ser_tree(st.tree), st.score] for st in b[0]]]})
+                    ctx.count('flat_batch_checked')
             for trees in b:
                 for st in trees:
                     ctx.count('tokens:' + ('full' if len(st.tree.tokens[0]) > 1 else 'bare'))
@@ -260,5 +271,6 @@ def run(ctx):
         assumptions=['words, token values and rule labels: printable, non-empty, no blank, no backslash (the quantifier of the property); token keys do not include cat / children '
                      '(json) or start / span / id (xml, jigg)',
                      'n-best trees of one sentence are over the same tokens (jigg_xml and html print the tokens / words of the first tree only)',
+                     'ja text / prolog: pos and inflection values contain no "/" and no "}" (they are joined with those characters); '
                      'rule symbols do not start with "-" (deriv) ; categories wf (CatFacts.wf) for the Coq round-trip theorems',
                      'scores are formatted by Python and passed to the model as opaque text'])
